@@ -15,9 +15,12 @@ configurations a user can write are exercised (see Env).
 import errno
 import itertools
 import os
+import queue
 import shutil
 import struct
 import tempfile
+import threading
+import time
 import zlib
 from io import BytesIO
 
@@ -37,10 +40,13 @@ RULE = ('Per backend variant (file x {tc,mp,tms,reverse_tms,quadkey,arcgis} x li
         'inside a value) and runs up to 30 of: '
         'store_tile, store_tiles, load_tile, load_tiles (single level, optional None tiles), is_cached, remove_tile(s), '
         'load_tile_metadata, the tile-manager call sequence (bulk load miss -> is_cached -> store on the same Tile '
-        'objects), cleanup, reopen. After EVERY operation every pool address is read back through load_tile, '
-        'is_cached and (grouped by level and dimension) load_tiles with fresh Tile objects and compared with a dict. '
+        'objects), cleanup, reopen - issued through one of 1-3 backend objects opened side by side on the same '
+        'storage and, optionally, from a second long-lived thread (another sqlite connection). After EVERY operation '
+        'every pool address is read back through load_tile, is_cached and (grouped by level and dimension) load_tiles '
+        'with fresh Tile objects, through the acting object/thread and one other, and compared with a shared dict. '
         'Plus: all 3-operation sequences over an alphabet of mutating operations on 4-address pools per variant '
-        '(bounded exhaustive), and row batches of 2..1000 tiles through the bulk paths. A history is non-trivial '
+        '(bounded exhaustive), all 2-operation sequences whose second operation goes through another object / thread, '
+        'and row batches of 2..1000 tiles through the bulk paths. A history is non-trivial '
         'when it contains an overwrite or a remove of a present tile followed by the read-back, a bulk operation '
         'touching level 0 or spanning a bundle / digit-group / level-database border, or two present addresses that '
         'share a bundle, an (x,y) pair, a single-colour link target or all but a dimension value; distinct = distinct '
@@ -59,7 +65,11 @@ ASSUMPTIONS = [
     'source or a split meta tile do after encoding)',
     'return values of store/remove calls and of load_tiles are not judged (the property speaks about what loads '
     'return); inconsistent ones are only counted in notes',
-    'one cache object at a time (concurrency is C07/C08), scratch directory on tmpfs when available (durability is C06)',
+    'up to three backend objects on one storage and (sqlite backends: thread-local connections) a second thread, '
+    'used strictly one call after the other - real concurrency is C07/C08; the model is shared: a load through '
+    'any object/thread returns the latest store through any of them; mbtiles / sqlite caches are configured with '
+    'sqlite_timeout: 1 so that a wrongly held database lock costs a second (geopackage has no such option, 30 s)',
+    'scratch directory on tmpfs when available (durability is C06)',
     'an exception raised by a well-formed cache API call counts as a violation (a load that raises does not '
     'return the stored bytes), except resource exhaustion of the harness machine (ENOSPC, EMFILE, ENOMEM)',
 ]
@@ -108,6 +118,7 @@ def all_variants():
 VARIANTS = all_variants()
 VARIANT_BY_NAME = dict((v['name'], v) for v in VARIANTS)
 SQLITE_FAMILIES = ('mbtiles', 'sqlite-level', 'geopackage', 'geopackage-level')
+SQLITE_TIMEOUT = 1
 
 DIM_LAYER = {'time': {'values': ['2020-08-25T00:00:00Z', '2020-08-26T00:00:00Z'], 'default': '2020-08-25T00:00:00Z'},
              'elevation': {'values': ['700', '850', 'default'], 'default': 'default'},
@@ -145,12 +156,15 @@ class Env(object):
         from mapproxy.config.loader import load_configuration
         self.variant = variant
         self.root = scratch_root()
-        self.live = None
+        self.lives = []
         try:
             cache = {'type': variant['type']}
             cache.update(variant.get('extra') or {})
             if variant['type'] == 'file':
                 cache['directory_layout'] = variant['layout']
+            if variant['type'] in ('mbtiles', 'sqlite'):
+                # plain cache option; a wrongly held database lock then costs a second, not the default 30 s
+                cache['sqlite_timeout'] = SQLITE_TIMEOUT
             glob = {'base_dir': './cd', 'lock_dir': './locks', 'tile_lock_dir': './tile_locks'}
             if variant.get('link'):
                 glob['link_single_color_images'] = link_value if link_value is not None else variant['link']
@@ -190,27 +204,30 @@ class Env(object):
         if cache is not None and hasattr(cache, 'cleanup'):
             cache.cleanup()
 
-    def _new(self):
-        self.live = self.cache_conf._tile_cache(self.grid_conf, self.image_opts)
-        return self.live
+    def new_object(self):
+        """one more backend object on the existing directory (another process / worker)"""
+        obj = self.cache_conf._tile_cache(self.grid_conf, self.image_opts)
+        self.lives.append(obj)
+        return obj
+
+    def release(self, obj):
+        self._close(obj)
+        self.lives = [o for o in self.lives if o is not obj]
 
     def fresh(self):
         """empty cache directory + new backend object"""
-        self._close(self.live)
-        self.live = None
+        for obj in self.lives:
+            self._close(obj)
+        self.lives = []
         shutil.rmtree(os.path.join(self.root, 'cd'), ignore_errors=True)
-        return self._new()
-
-    def reopen(self):
-        """new backend object on the existing directory (process restart)"""
-        self._close(self.live)
-        return self._new()
+        return self.new_object()
 
     def close(self):
         try:
-            self._close(self.live)
+            for obj in self.lives:
+                self._close(obj)
         finally:
-            self.live = None
+            self.lives = []
             shutil.rmtree(self.root, ignore_errors=True)
 
 
@@ -262,6 +279,42 @@ def payload_bytes(p):
 ENV_ERRNOS = (errno.ENOSPC, errno.EMFILE, errno.ENFILE, errno.ENOMEM, errno.EDQUOT)
 
 
+class Worker(object):
+    """A second thread that stays alive for one history: the sqlite backends keep one connection per thread,
+    so calls issued here use another connection of the same backend object.  Strictly sequential: the caller
+    waits for every call."""
+
+    def __init__(self):
+        self.q = queue.Queue()
+        self.thread = threading.Thread(target=self._loop, name='c05-second-thread')
+        self.thread.daemon = True
+        self.thread.start()
+
+    def _loop(self):
+        while True:
+            item = self.q.get()
+            if item is None:
+                return
+            fn, box, done = item
+            try:
+                box['r'] = fn()
+            except BaseException as e:   # handed back to the caller
+                box['e'] = e
+            done.set()
+
+    def run(self, fn):
+        box, done = {}, threading.Event()
+        self.q.put((fn, box, done))
+        done.wait()
+        if 'e' in box:
+            raise box['e']
+        return box['r']
+
+    def stop(self):
+        self.q.put(None)
+        self.thread.join()
+
+
 class CacheRaised(Exception):
     def __init__(self, opname, exc):
         Exception.__init__(self, '%s raised %r' % (opname, exc))
@@ -302,7 +355,7 @@ class Executor(object):
     """Applies operations (plain dicts) to one backend, keeps the dict model, and after every operation reads
     every pool address back through all read paths.  Used by the state machine, the enumerator and replay."""
 
-    def __init__(self, env, addrs, stats, exclude=frozenset(), link_value=None):
+    def __init__(self, env, addrs, stats, exclude=frozenset(), link_value=None, objects=1, threads=False):
         from mapproxy.cache.tile import Tile, TileCollection
         from mapproxy.image import ImageSource
         self.Tile, self.TileCollection, self.ImageSource = Tile, TileCollection, ImageSource
@@ -327,18 +380,45 @@ class Executor(object):
         self.skip_l0_bulk = LEVEL0_SIGS.get(self.family) in exclude
         self.excluded_l0 = 0
         self._last_mutated = []
-        self.cache = env.fresh()
+        self.n_objects = max(1, min(3, int(objects)))
+        self.threads = bool(threads)
+        self.worker = None
+        self._o, self._t = 0, 0
+        self.last_mutator = None
+        self.slow_calls = 0
+        self.caches = [env.fresh()]
+        while len(self.caches) < self.n_objects:
+            self.caches.append(env.new_object())
+
+    @property
+    def cache(self):
+        """the backend object the current operation goes through"""
+        return self.caches[self._o]
 
     # -- plumbing ---------------------------------------------------------------------------------
     def case(self):
         return {'kind': 'history', 'variant': self.v['name'], 'link_value': self.link_value,
+                'objects': self.n_objects, 'threads': self.threads,
                 'addrs': [[c[0], c[1], c[2], d] for c, d in self.addrs], 'ops': list(self.ops)}
 
     def close(self):
-        Env._close(self.cache)
+        try:
+            for obj in self.caches:
+                if self.worker is not None:
+                    self.worker.run(lambda obj=obj: Env._close(obj))
+                self.env.release(obj)
+        finally:
+            if self.worker is not None:
+                self.worker.stop()
+                self.worker = None
 
     def _call(self, opname, fn, *args, **kw):
+        t0 = time.time()
         try:
+            if self._t:
+                if self.worker is None:
+                    self.worker = Worker()
+                return self.worker.run(lambda: fn(*args, **kw))
             return fn(*args, **kw)
         except MemoryError:
             raise
@@ -348,6 +428,9 @@ class Executor(object):
             raise CacheRaised(opname, e)
         except Exception as e:
             raise CacheRaised(opname, e)
+        finally:
+            if time.time() - t0 >= 0.5 * SQLITE_TIMEOUT:
+                self.slow_calls += 1    # statistics only (a lock wait shows up here), never a verdict
 
     def _dimarg(self, d, salt=0):
         if d:
@@ -439,6 +522,14 @@ class Executor(object):
         self.ops.append(op)
         name = op['op']
         self.opcount[name] = self.opcount.get(name, 0) + 1
+        self._o = int(op.get('o', 0)) % len(self.caches)
+        self._t = 1 if (self.threads and op.get('t')) else 0
+        actor = (self._o, self._t)
+        if name in MUTATING:
+            if self.last_mutator is not None and self.last_mutator != actor:
+                self.features.add('mutation-after-mutation-through-other-' +
+                                  ('object' if self.last_mutator[0] != actor[0] else 'thread'))
+            self.last_mutator = actor
         try:
             v = getattr(self, '_op_' + name)(op)
             if v is None:
@@ -604,10 +695,16 @@ class Executor(object):
         self._last_mutated = [i for i, _, _ in missing]
 
     def _op_cleanup(self, op):
-        Env._close(self.cache)
+        # closes the connection of the calling thread only (connections are thread-local)
+        self._call('cleanup', Env._close, self.cache)
 
     def _op_reopen(self, op):
-        self.cache = self.env.reopen()
+        """replace the acting backend object by a new one on the same directory (process restart)"""
+        old = self.cache
+        if self.worker is not None:
+            self.worker.run(lambda: Env._close(old))
+        self.env.release(old)
+        self.caches[self._o] = self.env.new_object()
 
     # -- read-back of the whole pool ----------------------------------------------------------------
     def _mutated_keys(self, op):
@@ -621,6 +718,28 @@ class Executor(object):
         return []
 
     def check_all(self, op):
+        """read the whole pool back through the acting object/thread and, when the history has more than one
+        object or thread, through one other (rotating): a load through ANY of them returns the latest store
+        through ANY of them"""
+        acting = (self._o, self._t)
+        views = [acting]
+        k = len(self.caches)
+        if k > 1 or self.threads:
+            step = 1 + (len(self.ops) % max(1, k - 1)) if k > 1 else 0
+            other = ((self._o + step) % k, (1 - self._t) if self.threads and (k == 1 or len(self.ops) % 2) else self._t)
+            if other != acting:
+                views.append(other)
+        try:
+            for vi, view in enumerate(views):
+                self._o, self._t = view
+                v = self._check_view(op, other=vi > 0)
+                if v is not None:
+                    return v
+        finally:
+            self._o, self._t = acting
+        return None
+
+    def _check_view(self, op, other=False):
         n = len(self.ops)
         res = dict((k, {}) for k in self.keys)
         for ai, (coord, d) in enumerate(self.addrs):
@@ -661,6 +780,13 @@ class Executor(object):
             bad = [p for p in READ_PATHS if r.get(p)]
             detail = ', '.join('%s: %s' % (p, r[p] or 'ok') for p in READ_PATHS if p in r)
             where = 'address %r dimensions %r' % (key[0], dict(key[1]) or None)
+            if other:
+                # the acting object/thread read everything back correctly, another one does not
+                return self._viol(['other-connection', r.get('load_tile') or r[bad[0]]],
+                                  '%s read through object %d%s: %s after %s through object %d%s' % (
+                                      where, self._o, ' (second thread)' if self._t else '', detail, op['op'],
+                                      int(op.get('o', 0)) % len(self.caches),
+                                      ' (second thread)' if self.threads and op.get('t') else ''), key)
             if len(bad) < len(r):
                 # the read paths disagree with each other -> defect of the deviating read path
                 p = bad[0]
@@ -729,6 +855,11 @@ class Executor(object):
         classes += ['nt:' + f for f in sorted(self.features)]
         if len(self.ops) >= 20:
             classes.append('history>=20-ops')
+        classes.append('objects:%d' % self.n_objects)
+        if self.threads:
+            classes.append('second-thread')
+        if self.slow_calls:
+            self.stats.notes['cache-calls-slower-than-%.1fs (lock wait?):%s' % (0.5 * SQLITE_TIMEOUT, self.family)] += self.slow_calls
         for name, cnt in self.opcount.items():
             self.stats.classes['op:' + name] += cnt
         if self.excluded_l0:
@@ -865,6 +996,7 @@ def concretise(op, n):
 # state machine
 
 IDX = st.integers(0, 63)
+WHO = st.one_of(st.none(), st.integers(0, 5))    # None: the object/thread of the previous operation
 PKIND = st.sampled_from(['u', 'u', 'u', 'sc', 'sc'])
 
 
@@ -878,10 +1010,13 @@ def make_machine(variant, env, exclude, link_value):
             self.ex = None
             self.counter = 0
             self.dead = False
+            self.who = 0
 
-        @initialize(addrs=pools(variant, collapse, no_twins))
-        def setup(self, addrs):
-            self.ex = Executor(env, addrs, self._stats, exclude=exclude, link_value=link_value)
+        @initialize(addrs=pools(variant, collapse, no_twins), objects=st.sampled_from([1, 2, 2, 3]),
+                    threads=st.booleans())
+        def setup(self, addrs, objects, threads):
+            self.ex = Executor(env, addrs, self._stats, exclude=exclude, link_value=link_value,
+                               objects=objects, threads=threads)
             if collapse:
                 self._stats.excluded['%s: dimension values collapsed to one per history (open finding %s)' % (
                     variant['family'], DIM_SIGS[variant['family']])] += 1
@@ -903,7 +1038,11 @@ def make_machine(variant, env, exclude, link_value):
                 return {'k': 'u', 'n': self.counter}
             return {'k': 'sc', 'c': col}
 
-        def _do(self, op):
+        def _do(self, op, who=None):
+            if who is not None:
+                self.who = who
+            op['o'] = self.who % self.ex.n_objects
+            op['t'] = (self.who // 3) % 2 if self.ex.threads else 0
             if self.dead:
                 # the backend already diverged from the model through an already reported root cause;
                 # anything observed later in this history would only be a consequence of it
@@ -926,15 +1065,15 @@ def make_machine(variant, env, exclude, link_value):
             return picked[r:] + picked[:r]
 
         # rules -----------------------------------------------------------------------------------
-        @rule(i=IDX, kind=PKIND, col=st.integers(0, 3))
-        def store_tile(self, i, kind, col):
-            self._do({'op': 'store_tile', 'a': i % len(self.ex.addrs), 'p': self._payload(kind, col)})
+        @rule(i=IDX, kind=PKIND, col=st.integers(0, 3), who=WHO)
+        def store_tile(self, i, kind, col, who):
+            self._do({'op': 'store_tile', 'a': i % len(self.ex.addrs), 'p': self._payload(kind, col)}, who)
 
         @rule(sel=IDX, mask=st.integers(0, 2 ** 12 - 1), rot=IDX, kinds=st.lists(PKIND, min_size=12, max_size=12),
-              col=st.integers(0, 3), by_level=st.booleans())
-        def store_tiles(self, sel, mask, rot, kinds, col, by_level):
+              col=st.integers(0, 3), by_level=st.booleans(), who=WHO)
+        def store_tiles(self, sel, mask, rot, kinds, col, by_level, who):
             idxs = self._group(sel, mask, rot, by_level)
-            self._do({'op': 'store_tiles', 'as': idxs, 'ps': [self._payload(k, col) for k in kinds[:len(idxs)]]})
+            self._do({'op': 'store_tiles', 'as': idxs, 'ps': [self._payload(k, col) for k in kinds[:len(idxs)]]}, who)
 
         @rule(i=IDX, md=st.booleans())
         def load_tile(self, i, md):
@@ -960,24 +1099,29 @@ def make_machine(variant, env, exclude, link_value):
         def load_tile_metadata(self, i):
             self._do({'op': 'load_tile_metadata', 'a': i % len(self.ex.addrs)})
 
-        @rule(i=IDX)
-        def remove_tile(self, i):
-            self._do({'op': 'remove_tile', 'a': i % len(self.ex.addrs)})
+        @rule(i=IDX, who=WHO)
+        def remove_tile(self, i, who):
+            self._do({'op': 'remove_tile', 'a': i % len(self.ex.addrs)}, who)
 
-        @rule(sel=IDX, mask=st.integers(0, 2 ** 12 - 1), rot=IDX, by_level=st.booleans())
-        def remove_tiles(self, sel, mask, rot, by_level):
-            self._do({'op': 'remove_tiles', 'as': self._group(sel, mask, rot, by_level)})
+        @rule(sel=IDX, mask=st.integers(0, 2 ** 12 - 1), rot=IDX, by_level=st.booleans(), who=WHO)
+        def remove_tiles(self, sel, mask, rot, by_level, who):
+            self._do({'op': 'remove_tiles', 'as': self._group(sel, mask, rot, by_level)}, who)
 
         @rule(sel=IDX, mask=st.integers(0, 2 ** 12 - 1), rot=IDX, kinds=st.lists(PKIND, min_size=12, max_size=12),
-              col=st.integers(0, 3), bulk=st.booleans())
-        def fetch_through(self, sel, mask, rot, kinds, col, bulk):
+              col=st.integers(0, 3), bulk=st.booleans(), who=WHO)
+        def fetch_through(self, sel, mask, rot, kinds, col, bulk, who):
             idxs = self._group(sel, mask, rot, True)
             self._do({'op': 'fetch_through', 'as': idxs, 'ps': [self._payload(k, col) for k in kinds[:len(idxs)]],
-                      'bulk': bulk})
+                      'bulk': bulk}, who)
 
-        @rule(kind=st.sampled_from(['reopen', 'reopen', 'cleanup']))
-        def reopen_or_cleanup(self, kind):
-            self._do({'op': kind})
+        @rule(kind=st.sampled_from(['reopen', 'reopen', 'cleanup']), who=WHO)
+        def reopen_or_cleanup(self, kind, who):
+            self._do({'op': kind}, who)
+
+        @rule(who=st.integers(0, 5))
+        def act_through(self, who):
+            """the following operations go through backend object who % objects, from the second thread if who >= 3"""
+            self.who = who
 
     CacheMachine.__name__ = 'C05_' + variant['name'].replace('-', '_')
     return CacheMachine
@@ -1136,11 +1280,12 @@ def _tasks(tier, exclude):
         for pi, depth, nparts in enum_units(v, tier, collapse):
             for part in range(nparts):
                 tasks.append(('enum', v['name'], pi, depth, part, nparts))
+        tasks.append(('enum2', v['name']))
         nm = 1 if tier == 'quick' else 4
         for k in range(nm):
             tasks.append(('machine', v['name'], k, nm))
         tasks.append(('batch', v['name']))
-    cost = {'enum': 0, 'machine': 1, 'batch': 2}
+    cost = {'enum': 0, 'machine': 1, 'enum2': 2, 'batch': 3}
     return sorted(tasks, key=lambda t: (cost[t[0]], t[1:]))
 
 
@@ -1189,6 +1334,44 @@ def run_enum(variant, env, stats, tier, exclude, pool_index=0, depth=3, part=0, 
     return True
 
 
+def run_enum2(variant, env, stats, tier, exclude):
+    """all 2-operation sequences where the second operation goes through ANOTHER backend object on the same
+    storage (and, for the sqlite based backends, another thread = another connection of the same or the other
+    object) than the first; read-back through both after every operation"""
+    collapse = bool(DIM_SIGS.get(variant['family']) in exclude and variant.get('dims'))
+    sq = variant['family'] in SQLITE_FAMILIES
+    actors = [(1, 0)] + ([(0, 1), (1, 1)] if sq else [])
+    local = core.Stats()
+    for addrs in enum_pools(variant, tier, collapse):
+        alphabet = enum_alphabet(variant, addrs)
+        total = 0
+        for a, b in itertools.product(range(len(alphabet)), repeat=2):
+            for o, t in actors:
+                ex = Executor(env, addrs, local, exclude=exclude, objects=2, threads=sq)
+                v = None
+                try:
+                    v = ex.apply(dict(concretise(alphabet[a], 100 + a), o=0, t=0))
+                    if v is None:
+                        v = ex.apply(dict(concretise(alphabet[b], 200 + b), o=o, t=t))
+                finally:
+                    ex.close()
+                total += 1
+                if ex.slow_calls:
+                    stats.notes['cache-calls-slower-than-%.1fs (lock wait?):%s' % (
+                        0.5 * SQLITE_TIMEOUT, variant['family'])] += ex.slow_calls
+                if v is not None:
+                    stats.violations.append(v)
+                    stats.evaluations += total
+                    stats.extra['exhaustive_aborted'] = stats.extra.get('exhaustive_aborted', 0) + 1
+                    return False
+        stats.evaluations += total
+        stats.extra['exhaustive_two_object_sequences'] = stats.extra.get('exhaustive_two_object_sequences', 0) + total
+    stats.notes.update(local.notes)
+    stats.nontrivial.add(core.case_hash(('enum2', variant['name'])))
+    stats.classes['enum-unit-completed'] += 1
+    return True
+
+
 MACHINE_EXAMPLES = {'quick': 120, 'thorough': 1500}    # per machine work unit (thorough: 4 units per variant)
 MACHINE_STEPS = {'quick': 30, 'thorough': 40}
 BATCH_EXAMPLES = {'quick': (8, 3), 'thorough': (150, 40)}   # (sqlite families, others)
@@ -1211,6 +1394,8 @@ def work_shard(shard, nshards, seed, tier):
                              max_examples=MACHINE_EXAMPLES[tier], seed=tseed, step_count=MACHINE_STEPS[tier])
         elif kind == 'enum':
             run_enum(variant, env, stats, tier, exclude, *task[2:])
+        elif kind == 'enum2':
+            run_enum2(variant, env, stats, tier, exclude)
         else:
             many, few = BATCH_EXAMPLES[tier]
             sq = variant['family'] in SQLITE_FAMILIES
@@ -1231,7 +1416,7 @@ def run(tier, seed, stats):
     res = core.parallel(work_shard, len(tasks), seed, tier)
     stats.merge(res)
     aborted = stats.extra.pop('exhaustive_aborted', 0)
-    n_units = sum(1 for t in tasks if t[0] == 'enum')
+    n_units = sum(1 for t in tasks if t[0] in ('enum', 'enum2'))
     n_pools = 1 if tier == 'quick' else 3
     scope = (
         'all 3-operation sequences (shorter ones are their prefixes) over the alphabet {store_tile(a) with a fresh '
@@ -1239,6 +1424,9 @@ def run(tier, seed, stats):
         'store_tiles(a,b) for address pairs with equal dimensions, reopen} on %d four-address pool(s) for each of the '
         '%d backend variants, full read-back of the pool through load_tile / is_cached / load_tiles after every '
         'operation' % (n_pools, len(VARIANTS)))
+    scope += ('; all 2-operation sequences over the same alphabet and pools where the second operation goes through '
+              'a second backend object on the same storage (sqlite based backends: also through a second thread of '
+              'the first or the second object), read-back through both')
     if tier == 'thorough':
         scope += '; all 4-operation sequences on the first pool of the 6 plain file layouts'
     if exclude:
@@ -1266,7 +1454,8 @@ def replay(case, stats):
     env = Env(variant, case.get('link_value'))
     out = []
     try:
-        ex = Executor(env, case['addrs'], stats, exclude=frozenset(), link_value=case.get('link_value'))
+        ex = Executor(env, case['addrs'], stats, exclude=frozenset(), link_value=case.get('link_value'),
+                      objects=case.get('objects', 1), threads=case.get('threads', False))
         try:
             for op in case['ops']:
                 v = ex.apply(dict(op))
